@@ -5,12 +5,14 @@ CONSTANTS
     LibModes = {"startup", "dlopen"}
     SessModes = {"launch", "attach_pre", "attach_mid"}
     LibBiases = {300, 400}
+    LibBases = {0, 60}
     Kinds = {"fn", "line", "addr"}
     MaxReq = 2
     OffsetRule = "bias"
     ReloadRule = "forget"
     EarlyAddrRule = "defer"
     AttachRule = "rbrk"
+    ReqPlan = "free"
     Emit = "none"
 SPECIFICATION Spec
 INVARIANTS RefSane InstalledAtTrueAddress ActiveWhenMapped SharedLibsAreMapped StopsWhereRequested NeverLost
